@@ -43,6 +43,10 @@ CATALOGUE = [
 BY = {c[0]: c for c in CATALOGUE}
 
 
+# measured peak RSS (GB, rounded up + 1) of the heavier generated harnesses: the runner's admission control uses it
+MEMW = {"c02_hist_col_u8": 5, "c09_clone_from_longer_col_u8": 5, "c09_clone_col_u8": 5, "c12_dense_col_u8": 5}
+
+
 def emit(prop, header, body_fn, rows):
     """rows: (suffix, tier, unwind, extra_meta, fn_generic, bounds_fmt, desc)"""
     out = [header]
@@ -53,6 +57,8 @@ def emit(prop, header, body_fn, rows):
         name = "%s_%s_%s" % (prop.lower(), generic, suffix)
         if pre:
             name += "_" + pre[0]
+        if name in MEMW:
+            extra = (extra + " " if extra else "") + "memw=%d" % MEMW[name]
         out.append('// @h prop=%s tier=%s kind=proof %sinst="%s" bounds="%s" desc="%s"' % (
             prop, tier, (extra + " ") if extra else "", inst, bounds.format(v=vb), desc))
         if tier == "thorough":
